@@ -307,6 +307,23 @@ where
     res
 }
 
+/// Debug dump of all stored nodes
+pub fn dump<M: Manager>(m: &M) -> String
+where
+    M::InnerNode: HasLevel,
+{
+    let mut s = String::new();
+    s += &format!("order (level->var): {:?}\n", (0..m.num_levels()).map(|l| m.level_to_var(l)).collect::<Vec<_>>());
+    for level in m.levels() {
+        for e in level.iter() {
+            let n = m.get_node(e).unwrap_inner();
+            let cs: Vec<String> = n.children().map(|c| format!("{}{}", if c.tag().as_usize() != 0 { "!" } else { "" }, c.node_id())).collect();
+            s += &format!("  L{} id={} level_in_node={} rc={} children={:?}\n", level.level_no(), e.node_id(), n.level(), n.ref_count(), cs);
+        }
+    }
+    s
+}
+
 pub trait BoolKind: 'static {
     const KIND: BKind;
     const SEM: Sem;
@@ -321,6 +338,7 @@ pub trait BoolKind: 'static {
     /// structure + ref-count audit under the exclusive lock
     fn audit(mr: &MRef<Self>, handles: &[&Self::F], check_rc: bool) -> Result<AuditInfo, String>;
     fn set_var_order(mr: &MRef<Self>, order: &[VarNo], seq: bool);
+    fn dump(mr: &MRef<Self>) -> String;
     fn set_split_depth(mr: &MRef<Self>, d: Option<u32>);
     fn order(mr: &MRef<Self>) -> Vec<u32> {
         mr.with_manager_shared(|m| (0..m.num_levels()).map(|l| m.level_to_var(l)).collect())
@@ -384,6 +402,9 @@ macro_rules! bool_kind {
                         oxidd_reorder::set_var_order(m, order)
                     }
                 })
+            }
+            fn dump(mr: &MRef<Self>) -> String {
+                mr.with_manager_exclusive(|m| dump(&*m))
             }
             fn set_split_depth(mr: &MRef<Self>, d: Option<u32>) {
                 use oxidd::{HasWorkers, WorkerPool};
